@@ -992,33 +992,37 @@ def tailFlags (e : Env) (d : D) : D :=
     { d with flags := { d.flags with shutdown := true } }
   else d
 
-/-- the fix's wake condition (A) ∨ (B), see `normalTail` -/
-def fixWake (readBufWasFull : Bool) (d : D) (w : World) : Bool :=
+/-- the fixes' wake condition (A) ∨ (B) ∨ (C), see `normalTail` -/
+def fixWake (readBufWasFull pipelineWasFull : Bool) (d : D) (w : World) : Bool :=
   -- (A) the socket was not polled because `read_buf` was at its cap and the buffer has been
   -- drained since: resume reading
   (readBufWasFull && decide (d.rb < Consts.h1MaxBufferSize) && !d.flags.readDisc) ||
+  -- (C) the pipeline queue was full when `poll_request` ran, so buffered requests were left
+  -- undecoded, and the queue has drained since: decode them instead of waiting for the socket
+  (pipelineWasFull && decide (d.messages.length < Consts.h1MaxPipelined) && decide (d.rb > 0) &&
+    !d.flags.readDisc) ||
   -- (B) a payload dropped after `poll_request` saw it paused leaves buffered input that nothing
   -- would wake the task for
   ((match d.payload with | some rid => isDropped w rid | none => false) &&
     decide (d.rb > 0) && !d.flags.readDisc && decide (d.messages.length < Consts.h1MaxPipelined))
 
 /-- l.1430–1463 -/
-def tailDecide (fixed readBufWasFull : Bool) (d : D) (w : World) : Tail :=
+def tailDecide (fixed readBufWasFull pipelineWasFull : Bool) (d : D) (w : World) : Tail :=
   if isNone d.st && d.wlen = 0 && d.error.isSome then
     .ret (.err (d.error.getD .tooLarge)) { d with error := none } w
   else if isNone d.st && d.wlen = 0 && d.flags.finished && !d.flags.keepAlive && d.payload.isNone then
     .again { d with flags := { d.flags with finished := false, shutdown := true } } w
   else if isNone d.st && d.wlen = 0 && d.flags.shutdown then
     .again d w
-  else if (fixed && fixWake readBufWasFull d w) || d.flags.linger || d.flags.shutdown then
+  else if (fixed && fixWake readBufWasFull pipelineWasFull d w) || d.flags.linger || d.flags.shutdown then
     .ret .pending d w.wake
   else .ret .pending d w
 
 /-- normal branch, l.1407–1463 (after the response/flush loop); `readBufWasFull` is the fix's
 local -/
-def normalTail (e : Env) (readBufWasFull : Bool) (d : D) (w : World) : Tail :=
+def normalTail (e : Env) (readBufWasFull pipelineWasFull : Bool) (d : D) (w : World) : Tail :=
   if d.flags.writeDisc then .ret .ready d w
-  else tailDecide e.cfg.fixed readBufWasFull (tailFlags e d) w
+  else tailDecide e.cfg.fixed readBufWasFull pipelineWasFull (tailFlags e d) w
 
 /-- `Dispatcher::poll` (l.1277), `DispatcherState::Normal`. `depth` bounds `return self.poll(cx)`. -/
 def poll (e : Env) (bigFuel : Nat) : Nat → D → World → PollRes × D × World
@@ -1035,11 +1039,13 @@ def poll (e : Env) (bigFuel : Nat) : Nat → D → World → PollRes × D × Wor
         | (.ok shouldDisconnect, d, w) =>
           -- fix (C04): `read_available` stopped at the cap: the read waker is not registered
           let readBufWasFull := decide (d.rb ≥ Consts.h1MaxBufferSize)
+          -- fix (C04p): `poll_request` is about to refuse because the pipeline queue is full
+          let pipelineWasFull := decide (d.messages.length ≥ Consts.h1MaxPipelined)
           let (d, w) := afterRead e shouldDisconnect d w
           match respFlushLoop e bigFuel bigFuel d w with
           | (some k, d, w) => (.err k, d, w)
           | (none, d, w) =>
-            match normalTail e readBufWasFull d w with
+            match normalTail e readBufWasFull pipelineWasFull d w with
             | .ret r d w => (r, d, w)
             | .again d w => poll e bigFuel depth d w
 
